@@ -39,7 +39,7 @@ def project(rows, types):
 
 
 PROBES_BY = {
-    "C13": ["ops", "reads", "chunked_reads", "multi_chunk_reads", "appends", "finalized", "buffer_flushes", "caller_reused_its_object", "dictionary_typed_parquet", "parquet_from_sliced_frame"],
+    "C13": ["ops", "reads", "chunked_reads", "multi_chunk_reads", "appends", "finalized", "buffer_flushes", "caller_reused_its_object", "dictionary_typed_parquet", "parquet_from_sliced_frame", "interleaved_iterators"],
     "C14": ["ops", "merges", "tie_merges", "sortedness_faults", "abandoned_merges"],
 }
 
@@ -122,8 +122,8 @@ def make_machine(which, base_dir):
             @rule(data=st.data(), via=st.sampled_from(["direct", "direct", "frame", "mapped_frame", "mapped", "joined", "computed"]),
                   chunk_mode=st.sampled_from(["one", "small", "n-1", "n", "n+1", "any"]), chunk_any=st.integers(1, 30),
                   col_pick=st.one_of(st.none(), st.lists(st.integers(0, 7), min_size=1, max_size=5)),
-                  rename=st.integers(0, 15))
-            def read(self, data, via, chunk_mode, chunk_any, col_pick, rename):
+                  rename=st.integers(0, 15), twin_chunk=st.sampled_from([None, None, None, 1, 2, 3, 5]))
+            def read(self, data, via, chunk_mode, chunk_any, col_pick, rename, twin_chunk):
                 fin = sorted(k for k, t in self.world.tables.items() if t["final"])
                 table = data.draw(st.sampled_from(fin))
                 n = len(self.world.tables[table]["rows"])
@@ -135,7 +135,8 @@ def make_machine(which, base_dir):
                         via = "direct"
                     else:
                         other = data.draw(st.sampled_from(cands))
-                self._do("read", table=table, via=via, chunk_size=cs, col_pick=col_pick, other=other, rename=rename)
+                self._do("read", table=table, via=via, chunk_size=cs, col_pick=col_pick, other=other, rename=rename,
+                         twin_chunk=twin_chunk)
 
         # ------------------------------------------------------------ C14 rules
         if which == "C14":
